@@ -306,8 +306,12 @@ def install(eng):
                 if outs[0][1]:
                     st.faulted = True; st.event('fault', 'open refused', name); return (-1) & 0xffffffff
             if name in st.unwritable: return (-1) & 0xffffffff
-            if not (mode & 8): st.files[name] = []   # trunc unless also in
-            st.files.setdefault(name, [])
+            # ISO table of open modes (app=1, in=8, out=16, trunc=32): out / out|trunc / in|out|trunc create or truncate;
+            # in|out opens an EXISTING file without truncating it and fails otherwise; ...|app creates and keeps
+            if mode & 1: st.files.setdefault(name, [])
+            elif (mode & 8) and not (mode & 32):
+                if name not in st.files: return (-1) & 0xffffffff
+            else: st.files[name] = []
         elif name not in st.files:
             return (-1) & 0xffffffff
         h = st.next_h; st.next_h += 1
